@@ -48,7 +48,9 @@ class time_limit:
 
     def __enter__(self):
         if self.risky and _TIMEOUTS[0] >= 12:
-            raise Timeout()  # the hang has been demonstrated a dozen times already; do not pay for it again
+            # the hang has been demonstrated a dozen times already; do not pay for it again.  (Only reached on a tree
+            # whose densify loop does not terminate; callers treat Timeout as "not judged" apart from the hang itself.)
+            raise Timeout()
         self.old = signal.signal(signal.SIGALRM, self._h)
         signal.setitimer(signal.ITIMER_REAL, self.secs if _TIMEOUTS[0] < 3 else min(self.secs, 0.25))
 
@@ -260,8 +262,10 @@ def oracle_densify(R: Run, coords, r: float, out, where: str, tag: str):
             if cand >= 1 and (cand * rr) ** 2 < D2:
                 n = cand
         ratio = math.sqrt(float(D2)) / float(rr)
+        # axis-parallel edge, exact coordinate difference, dyadic r with few bits: d = k*r and the length are exact
+        # doubles, the loop test is decided exactly even one ulp away from a multiple of r
         exact_inputs = (p[0] == q[0] or p[1] == q[1]) and is_dyadic(rr) and rr.denominator <= 2**20 and (
-            abs(F(q[0]) - F(p[0])) + abs(F(q[1]) - F(p[1]))) < 2**40 and (p[0] == 0 or p[1] == 0 or True)
+            abs(F(q[0]) - F(p[0])) + abs(F(q[1]) - F(p[1]))) < 2**40
         axis_exact = exact_inputs and _diff_exact(p, q)
         away = abs(ratio - round(ratio)) > 1e-9 * max(1.0, ratio)
         if axis_exact or away:
@@ -597,6 +601,21 @@ def run_segmented(R: Run):
                 R.corr(line, f, sig=f"seg|{kind}|{fam}" + ("|trivial" if kind in ("point", "multipoint") else ""))
                 if "out" in box:
                     oracle_segmented(R, shp, r, box["out"], kind)
+    # empty geometries: densify indexes coords[0]
+    from shapely import geometry as sg
+
+    for kind, shp in (("empty-line", sg.LineString()), ("empty-polygon", sg.Polygon()),
+                      ("collection-with-empty", sg.GeometryCollection([sg.Point(1, 2), sg.LineString()]))):
+        for r in (1.0, 0.0, -1.0):
+            line = f"c07 seg {frac_s(r)} {enc_geom(shp)}"
+
+            def fe():
+                try:
+                    return enc_geom(seg_real(gm, shp, r).geom)
+                except BaseException as e:  # pylint: disable=broad-except
+                    return err_s(e)
+
+            R.corr(line, fe, sig=f"seg|{kind}")
     # non-positive resolution on every kind: rejected (points are cloned before any densify call)
     kinds, _ = shapes_for(rng, "axis")
     for kind, shp in kinds.items():
@@ -706,6 +725,7 @@ def run_to_crs_model(R: Run):
                         if isinstance(box.get("exc"), Timeout):
                             R.oracle(False, "densify-nonpositive-resolution-hangs", case,
                                      f"to_crs({et[0]}, resolution={rv}) on a {kind} did not return within {TIME_LIMIT}s")
+                            continue  # nothing else can be judged on a call that did not (or was not allowed to) finish
                         # the property itself
                         if es[2] is None or et[2] is None:
                             R.oracle(isinstance(box.get("exc"), ValueError) or (es[2] is None and et[2] is None
@@ -909,13 +929,32 @@ def replay(R: Run, rec) -> int:
                 worst = max((d2(a, b) for c in rings_of(out.geom) if len(c) >= 2 for a, b in zip(c[:-1], c[1:])),
                             default=Fraction(0))
                 return 1 if worst > F(float(res)) ** 2 * (1 + Fraction(1, 10**12)) ** 2 else 0
+            from .c01 import Pool
+
+            byl = {e[0]: e[2] for e in Pool(True).entries}
             src, dst = case.get("src"), case.get("dst")
-            if src and src.isdigit() and dst and dst.isdigit():
-                g = gm.Geometry(shp, f"EPSG:{src}")
+
+            def crs_of(lab):
+                if lab in byl:
+                    return byl[lab]
+                return f"EPSG:{lab}"
+
+            if src is not None and dst is not None:
+                g = gm.Geometry(shp, crs_of(src))
                 rv = res if res in (None, "auto") else (None if res == "None" else float(res))
-                with time_limit(5):
-                    out = g.to_crs(f"EPSG:{dst}", resolution=rv)
-                print("to_crs ->", out.geom.wkt[:300])
+                try:
+                    with time_limit(5):
+                        out = g.to_crs(crs_of(dst), resolution=rv)
+                except ValueError as e:
+                    print("raised", repr(e))
+                    return 0 if key == "to-crs-accepts-missing-crs" else 1
+                print("to_crs ->", out.crs, out.geom.wkt[:300])
+                if key == "to-crs-accepts-missing-crs":
+                    return 1
+                if key == "to-crs-same-crs-not-identity":
+                    return 0 if out is g else 1
+                if key == "to-crs-changes-structure":
+                    return 0 if (skel_of(out.geom) == skel_of(shp) and out.crs == crs_of(dst)) else 1
                 return 0
     except Timeout:
         print("the call did not return within the time limit (non-terminating densify loop)")
